@@ -458,10 +458,15 @@ def main(run):
         run.cov["oracle"]["max recovery error V (rel)"] = max(run.cov["oracle"].get("max recovery error V (rel)", 0.0), errV)
         run.cov["oracle"]["max recovery error G (eV)"] = max(run.cov["oracle"].get("max recovery error G (eV)", 0.0), errG)
         run.cov["oracle"]["max recovery error B (rel)"] = max(run.cov["oracle"].get("max recovery error B (rel)", 0.0), errB)
+        # accuracy the unchanged leastsq reaches on exact data (measured on /repo): its stopping rule is relative to the norm of the
+        # parameter vector, which a large |E0| dominates -> relative error of V about 1e-14 |E|^2 (1e-6 at 1e4 eV), of B ten times that
+        sf = max(1.0, float(np.abs(Ek).max()))
+        nz = max(1e-9, 1e-13 * sf * sf)
+        tolV, tolG, tolB = nz, max(1e-9 * sf, 1e-13 * sf * sf), max(1e-7, 1e-11 * sf * sf)
         nonconv = False
         nfit_ = len(hv)
         err_hidden = max(float(np.abs(hv / Vk[:nfit_] - 1).max()), float(np.abs(hb / Bk[:nfit_] - 1).max()) * 1e-2)
-        if errV > 1e-9 or errG > 1e-9 * max(1.0, float(np.abs(Ek).max())) or errB > 1e-7 or err_hidden > 1e-9:
+        if errV > tolV or errG > tolG or errB > tolB or err_hidden > tolV:
             fes = np.array(qha._qha._free_energies)
             pars_impl = np.array(qha._qha._equiv_parameters)
             bad_t = [i_ for i_ in range(len(pars_impl))
@@ -472,7 +477,7 @@ def main(run):
             run.violation("EOSFit.fit (scipy.optimize.leastsq)", "exact-data-spurious-stationary-point",
                           "QHA fit at temperature indices %r stops where an independent leastsq run from the documented start stops: rel V %.3g, G %.3g eV, rel B %.3g" % (bad_t[:6], errV, errG, errB), info)
             continue
-        if errV > 1e-9 or errG > 1e-9 * max(1.0, float(np.abs(Ek).max())) or errB > 1e-7:
+        if errV > tolV or errG > tolG or errB > tolB:
             run.violation(site, "recovery" + ("-pressure" if c["pressure"] else "") + ("-outside-grid" if c["outside"] else ""),
                           "fitted V(T), G(T), B(T) differ from the parameters of the generating EOS: rel V %.3g, G %.3g eV, rel B %.3g" % (errV, errG, errB), info)
         if c["pressure"] is None and c["shape"] == "V":
@@ -491,10 +496,10 @@ def main(run):
         dts = np.diff(T).min()
         te = np.array(qha.thermal_expansion)
         cp = np.array(qha.heat_capacity_P_numerical)
-        if len(te) != L or np.abs(te - np.array(beta_k)).max() > 2e-10 / dts + 1e-6 * float(np.abs(np.array(beta_k)).max()):
+        if len(te) != L or np.abs(te - np.array(beta_k)).max() > 0.5 * nz / dts + 1e-6 * float(np.abs(np.array(beta_k)).max()):
             run.violation(site, "thermal-expansion", "thermal expansion differs from the central difference of the known V(T) by %.3g" % np.abs(te - np.array(beta_k)).max(), info)
         # second differences of G amplify its rounding noise (~1e-13 |G|) by T/dT^2
-        cptol = max(1e-6 * float(np.abs(np.array(cp_k)).max()), 4e-11 * max(1.0, float(np.abs(Ek).max())) * units.EvTokJmol * 1000 * float(T[:L + 1].max()) / dts ** 2)
+        cptol = max(1e-6 * float(np.abs(np.array(cp_k)).max()), 0.4 * tolG * units.EvTokJmol * 1000 * float(T[:L + 1].max()) / dts ** 2)
         if len(cp) != L or np.abs(cp - np.array(cp_k)).max() > cptol:
             run.violation(site, "heat-capacity-P", "C_P differs from -T d2G/dT2 of the known G(T) by %.3g (tolerance %.3g)" % (np.abs(cp - np.array(cp_k)).max(), cptol), info)
         # C_P (polyfit) = C_V(V_i) + T_i (dV/dT)(dS/dV) with the KNOWN quartics and the known quadratic V(T)
@@ -506,17 +511,18 @@ def main(run):
             dsdv_k = (t / (t + 90.0)) * (0.4 + 0.02 * (vv - c["vm"]))
             cp_known.append(cv_k + t * c["dV0dT"][i] * dsdv_k)
         cp_known = np.array(cp_known)
-        if cpp is not None and (len(cpp) != L or np.abs(cpp - cp_known).max() > 1e-6 * max(1.0, float(np.abs(cp_known).max())) + 2e-10 / dts * float(np.abs(np.array(T[:L]) * 60.0).max())):
+        if cpp is not None and (len(cpp) != L or np.abs(cpp - cp_known).max() > 1e-6 * max(1.0, float(np.abs(cp_known).max())) + 0.5 * nz / dts * float(np.abs(Vk).max()) * float(np.abs(np.array(T[:L])).max())):
             run.violation(site, "cp-polyfit", "heat_capacity_P_polyfit differs from C_V(V) + T (dV/dT)(dS/dV) of the known functions by %.3g" % np.abs(cpp - cp_known).max(), info)
         # Grueneisen parameter from the known functions: beta K_T / (C_V/V in GPa/K)
         gam = np.array(qha.gruneisen_temperature, dtype="double")
-        g_known = [0.0]
+        g_known, g_tol = [0.0], [0.0]
         for i in range(1, L):
             t, vv = T[i], Vk[i]
             cvv = (t / (t + 150.0)) * sum(qk * (vv - c["vm"]) ** k for k, qk in enumerate(c["q"])) / vv / 1000 / units.EvTokJmol * units.EVAngstromToGPa
             g_known.append(0.0 if cvv < 1e-10 else beta_k[i] * Bk[i] / cvv)
-        g_known = np.array(g_known)
-        if len(gam) != L or np.abs(gam - g_known).max() > 1e-6 * max(1e-3, float(np.abs(g_known).max())) + 4e-9 / dts * float(np.abs(Bk).max()) / max(1e-12, float(np.abs(cp_known[1:]).min() if L > 1 else 1.0)):
+            g_tol.append(0.0 if cvv < 1e-10 else (0.5 * nz / dts) * Bk[i] / cvv + (1e-6 + tolB + tolV) * abs(g_known[-1]))
+        g_known, g_tol = np.array(g_known), np.array(g_tol)
+        if len(gam) != L or np.any(np.abs(gam - g_known) > g_tol + 1e-9):
             run.violation(site, "gruneisen", "Grueneisen parameter differs from beta K_T V / C_V of the known functions by %.3g" % np.abs(gam - g_known).max(), info)
         run.count("oracle-recovery", section="oracle")
 
@@ -527,7 +533,15 @@ def main(run):
         base = run_qha(c0, fph0, pressure=None, tmax=None)
         comp = run_qha(c0, fph0, pressure=1.0, tmax=None)
         if not np.all(np.array(comp.volume_temperature) < np.array(base.volume_temperature)):
-            run.violation("PhonopyQHA", "pressure-sign", "+1 GPa does not reduce the equilibrium volume at every temperature", c["info"])
+            def _is_reference(q_):
+                fes_, par_ = np.array(q_._qha._free_energies), np.array(q_._qha._equiv_parameters)
+                return all(same_as_reference(c["kind"], c["vols"], fes_[i_], par_[i_]) for i_ in range(len(par_)))
+            if _is_reference(base) and _is_reference(comp):
+                # both analyses are what the documented algorithm gives on these data: a spurious stationary point of leastsq, not the +PV term
+                run.violation("EOSFit.fit (scipy.optimize.leastsq)", "exact-data-spurious-stationary-point",
+                              "+1 GPa does not reduce the fitted equilibrium volume at every temperature, and an independent leastsq run from the documented start gives the same fits", c["info"])
+            else:
+                run.violation("PhonopyQHA", "pressure-sign", "+1 GPa does not reduce the equilibrium volume at every temperature", c["info"])
         if c["shape"] == "V":
             tiled = np.tile(c["el"], (len(c["temps"]), 1))
             other = run_qha(c, fph, el=tiled)
@@ -537,11 +551,12 @@ def main(run):
         # the zero of energy is arbitrary: shifting the electronic energies by X shifts G by X and leaves V(T), B(T), thermal expansion alone
         X = rng.choice([1e3, -1e3, -7870.0, 12.5])
         shifted = run_qha(c, fph, el=np.array(c["el"]) + X)
-        sc_e = max(abs(X), float(np.abs(np.array(qha.gibbs_temperature)).max()), 1.0)
-        if (not close(shifted.volume_temperature, qha.volume_temperature, float(np.abs(qha.volume_temperature).max()))
-                or not close(shifted.bulk_modulus_temperature, qha.bulk_modulus_temperature, float(np.abs(qha.bulk_modulus_temperature).max()), 1e-7)
-                or not close(np.array(shifted.gibbs_temperature) - X, qha.gibbs_temperature, sc_e)
-                or not close(shifted.thermal_expansion, qha.thermal_expansion, float(np.abs(np.array(qha.thermal_expansion)).max()) + 2e-10 / float(np.diff(c["temps"]).min()), 1e-6)):
+        sfx = max(1.0, abs(X) + float(np.abs(np.array(qha.gibbs_temperature)).max()))
+        nzx = max(1e-9, 1e-13 * sfx * sfx)
+        if (not close(shifted.volume_temperature, qha.volume_temperature, float(np.abs(qha.volume_temperature).max()), 2 * nzx)
+                or not close(shifted.bulk_modulus_temperature, qha.bulk_modulus_temperature, float(np.abs(qha.bulk_modulus_temperature).max()), max(2e-7, 2e-11 * sfx * sfx))
+                or not close(np.array(shifted.gibbs_temperature) - X, qha.gibbs_temperature, 1.0, max(2e-9 * sfx, 2e-13 * sfx * sfx))
+                or not close(shifted.thermal_expansion, qha.thermal_expansion, 1.0, nzx / float(np.diff(c["temps"]).min()) + 1e-6 * float(np.abs(np.array(qha.thermal_expansion)).max()))):
             run.violation("PhonopyQHA", "energy-offset", "shifting all energies by %g eV changes V(T), B(T) or the thermal expansion, or G(T) does not shift by the same amount" % X, c["info"])
         full = run_qha(c, fph, tmax=None)
         Lc = len(qha.volume_temperature)
@@ -634,8 +649,12 @@ def main(run):
                 continue
             if not close(te, arr[0], float(np.abs(arr[0]).max())):
                 run.broke("correspondence", "thermal expansion differs from model by %.3g" % np.abs(te - arr[0]).max(), c["info"])
-            # np.polyfit on three points solves a Vandermonde system: conditioning ~ (T/dT)^2 — allowance 1e-6
-            if not close(cp, arr[1], float(np.abs(arr[1]).max()), 1e-6):
+            # np.polyfit on three points solves a Vandermonde system (conditioning ~ (T/dT)^2: allowance 1e-6), and the second difference of
+            # g = G*EvTokJmol*1000 cancels |g| (whose zero is arbitrary): rounding allowance 8 eps |g| T / dT^2 on both sides
+            gmax_ = float(np.abs(np.array(qha._qha._equiv_energies)).max()) * units.EvTokJmol * 1000
+            tt_ = np.array(c["temps"][:num], dtype="double")
+            round_ = 8 * 2.22e-16 * gmax_ * float(tt_.max()) / float(np.diff(tt_).min()) ** 2 if len(tt_) > 1 else 0.0
+            if np.abs(cp - arr[1]).max(initial=0.0) > 1e-6 * float(np.abs(arr[1]).max(initial=0.0)) + round_:
                 run.broke("correspondence", "C_P (numerical) differs from model by %.3g (scale %.3g)" % (np.abs(cp - arr[1]).max(), np.abs(arr[1]).max()), c["info"])
             if not close(gam, arr[2], float(np.abs(arr[2]).max())):
                 run.broke("correspondence", "Grueneisen parameter differs from model by %.3g" % np.abs(gam - arr[2]).max(), c["info"])
